@@ -4,6 +4,7 @@ CONSTANTS
   BaseSet = "families"
   MaxMut = 1
   MaxBoth = 1
+  Star = FALSE
   HashBits = 1
 INVARIANT Refines
 CHECK_DEADLOCK FALSE
